@@ -18,7 +18,7 @@ package generic
 
 // searchFieldId: positions the cursor at the value of the first field carrying the id.
 //@ spec searchFieldId
-//@   props C01 C06 C04
+//@   props C01 C06 C04 C12
 //@   ensures mono: old(p.Read) <= p.Read
 //@   ensures errtype: err != nil ==> dyntype(err, Node)
 //@   ensures range: 0 <= start && start <= p.Read
@@ -39,7 +39,7 @@ package generic
 
 // searchIndex: positions the cursor at element `id` of the list/set whose header is at the cursor.
 //@ spec searchIndex
-//@   props C01 C06 C04
+//@   props C01 C06 C04 C12
 //@   ensures mono: old(p.Read) <= p.Read
 //@   ensures errtype: err != nil ==> dyntype(err, Node)
 //@   ensures range: 0 <= start && start <= p.Read
@@ -57,7 +57,7 @@ package generic
 // koff: offset of the value of the first pair (of n) whose string key equals (kb, ko, kl) … expressed per kind below.
 // searchStrKey / searchIntKey / searchBinKey: cursor at the value of the first pair whose key matches.
 //@ spec searchStrKey
-//@   props C01 C06 C04
+//@   props C01 C06 C04 C12
 //@   ensures mono: old(p.Read) <= p.Read
 //@   ensures errtype: err != nil ==> dyntype(err, Node)
 //@   ensures range: 0 <= start && start <= p.Read
@@ -70,7 +70,7 @@ package generic
 //@     invariant mono: old(p.Read) + 6 <= p.Read && 0 <= i
 
 //@ spec searchBinKey
-//@   props C01 C06 C04
+//@   props C01 C06 C04 C12
 //@   ensures mono: old(p.Read) <= p.Read
 //@   ensures errtype: err != nil ==> dyntype(err, Node)
 //@   ensures range: 0 <= start && start <= p.Read
@@ -87,7 +87,7 @@ package generic
 //@      ite(kt == 8, sx(int32(thrift.be32(b, e-4))), int(thrift.be64(b, e-8)))))
 
 //@ spec searchIntKey
-//@   props C01 C06 C04
+//@   props C01 C06 C04 C12
 //@   ensures mono: old(p.Read) <= p.Read
 //@   ensures errtype: err != nil ==> dyntype(err, Node)
 //@   ensures range: 0 <= start && start <= p.Read
@@ -110,7 +110,7 @@ package generic
 //@ typeinv Node as n = windowif(n.t != thrift.ERROR, n.v, n.l) && windowif(n.t == thrift.ERROR && n.et != 1 && n.v != nil, n.v, 40) && nmeta(n.t, n.et, n.kt, n.v, n.l)
 
 //@ spec (Node).slice
-//@   props C01 C06 C04
+//@   props C01 C06 C04 C12
 //@   requires span: self.t != thrift.ERROR && 0 <= s && s <= e && e <= self.l
 //@   requires hdr: ((t == thrift.LIST || t == thrift.SET) ==> s + 1 <= e) && (t == thrift.MAP ==> s + 2 <= e)
 //@   ensures win: r0.t == t && r0.l == e - s && samerg(r0.v, self.v) && offset(r0.v) == offset(self.v) + s
@@ -120,7 +120,7 @@ package generic
 
 // GetByPath: never panics; a non-error result is a window inside the receiver's window.
 //@ spec (Node).GetByPath
-//@   props C01 C06
+//@   props C01 C06 C12
 //@   requires live: self.t != thrift.ERROR      // an error receiver is returned as is (its Error() text is never empty); not analysed
 //@   ensures inside: r0.t != thrift.ERROR && len(pathes) > 0 ==> samerg(r0.v, self.v) && offset(r0.v) >= offset(self.v) && \
 //@       offset(r0.v) + r0.l <= offset(self.v) + self.l && r0.l >= 0
@@ -178,35 +178,35 @@ package generic
 //@ end
 
 //@ spec (Node).iterFields
-//@   props C01 C06
+//@   props C01 C06 C12
 //@   use iter_over(fi)
 //@   ensures start: fi.Err == nil && fi.p.Read == 0
 
 //@ spec (Node).iterElems
-//@   props C01 C06
+//@   props C01 C06 C12
 //@   use iter_over(fi)
 //@   ensures hdr: fi.Err == nil ==> fi.p.Read == 5 && fi.k == 0 && fi.size >= 0 && fi.et == thrift.Type(byteat(self.v, 0))
 
 //@ spec (Node).iterPairs
-//@   props C01 C06
+//@   props C01 C06 C12
 //@   use iter_over(fi)
 //@   ensures hdr: fi.Err == nil ==> fi.p.Read == 6 && fi.i == 0 && fi.size >= 0 && fi.kt == thrift.Type(byteat(self.v, 0)) && fi.et == thrift.Type(byteat(self.v, 1))
 
 //@ spec (structIterator).HasNext
-//@   props C01 C06
+//@   props C01 C06 C12
 //@   ensures r0 ==> it.Err == nil && it.p.Read < len(it.p.Buf)
 
 //@ spec (listIterator).HasNext
-//@   props C01 C06
+//@   props C01 C06 C12
 //@   ensures r0 ==> it.Err == nil && it.p.Read < len(it.p.Buf) && it.k < it.size
 
 //@ spec (mapIterator).HasNext
-//@   props C01 C06
+//@   props C01 C06 C12
 //@   ensures r0 ==> it.Err == nil && it.p.Read < len(it.p.Buf) && it.i < it.size
 
 // Next: on success [start, end) is the value's span inside the buffer and the cursor sits at end
 //@ spec (*structIterator).Next
-//@   props C01 C06
+//@   props C01 C06 C12
 //@   ensures mono: old(it.p.Read) <= it.p.Read && same(it.p.Buf, old(it.p.Buf)) && len(it.p.Buf) == old(len(it.p.Buf))
 //@   ensures span: it.Err == nil && typ != 0 ==> start == old(it.p.Read) + 3 && start <= end && end == it.p.Read && end - start >= thrift.tmin(typ) && \
 //@       typ == thrift.Type(it.p.Buf[old(it.p.Read)]) && id == thrift.FieldID(thrift.be16(it.p.Buf, old(it.p.Read)+1))
@@ -217,7 +217,7 @@ package generic
 //@   modifies it.Err, it.p.Read
 
 //@ spec (*listIterator).Next
-//@   props C01 C06
+//@   props C01 C06 C12
 //@   ensures mono: old(it.p.Read) <= it.p.Read && same(it.p.Buf, old(it.p.Buf)) && len(it.p.Buf) == old(len(it.p.Buf)) && it.et == old(it.et) && it.size == old(it.size)
 //@   ensures span: old(it.Err) == nil && it.Err == nil ==> start == old(it.p.Read) && start <= end && end == it.p.Read && end - start >= thrift.tmin(it.et) && it.k == old(it.k) + 1
 //@   ensures exact: old(it.Err) == nil && it.Err == nil ==> end == start + thrift.tsz(it.p.Buf, start, it.et)
@@ -232,14 +232,14 @@ package generic
 //@ end
 
 //@ spec (Node).Field
-//@   props C01 C06
+//@   props C01 C06 C12
 //@   use accessor()
 //@   loop 1
 //@     invariant buf: samerg(it.p.Buf, self.v) && offset(it.p.Buf) == offset(self.v) && len(it.p.Buf) == self.l && 0 <= it.p.Read && it.p.Read <= len(it.p.Buf)
 //@     decreases len(it.p.Buf) - it.p.Read
 
 //@ spec (Node).Index
-//@   props C01 C06
+//@   props C01 C06 C12
 //@   use accessor()
 //@   ensures negative: i < 0 ==> v.t == thrift.ERROR
 //@   loop 1
@@ -247,41 +247,41 @@ package generic
 //@     decreases i - j
 
 //@ spec (Node).GetByStr
-//@   props C01 C06
+//@   props C01 C06 C12
 //@   use accessor()
 //@   loop 1
 //@     invariant buf: samerg(it.p.Buf, self.v) && offset(it.p.Buf) == offset(self.v) && len(it.p.Buf) == self.l && 0 <= it.p.Read && it.p.Read <= len(it.p.Buf) && it.et == self.et
 //@     decreases len(it.p.Buf) - it.p.Read
 
 //@ spec (Node).GetByInt
-//@   props C01 C06
+//@   props C01 C06 C12
 //@   use accessor()
 //@   loop 1
 //@     invariant buf: samerg(it.p.Buf, self.v) && offset(it.p.Buf) == offset(self.v) && len(it.p.Buf) == self.l && 0 <= it.p.Read && it.p.Read <= len(it.p.Buf) && it.et == self.et
 //@     decreases len(it.p.Buf) - it.p.Read
 
 //@ spec (Node).GetByRaw
-//@   props C01 C06
+//@   props C01 C06 C12
 //@   use accessor()
 //@   loop 1
 //@     invariant buf: samerg(it.p.Buf, self.v) && offset(it.p.Buf) == offset(self.v) && len(it.p.Buf) == self.l && 0 <= it.p.Read && it.p.Read <= len(it.p.Buf) && it.et == self.et
 //@     decreases len(it.p.Buf) - it.p.Read
 
 //@ spec (*mapIterator).NextStr
-//@   props C01 C06
+//@   props C01 C06 C12
 //@   ensures mono: old(it.p.Read) <= it.p.Read && same(it.p.Buf, old(it.p.Buf)) && len(it.p.Buf) == old(len(it.p.Buf)) && it.et == old(it.et) && it.kt == old(it.kt) && it.size == old(it.size)
 //@   ensures span: old(it.Err) == nil && it.Err == nil ==> old(it.p.Read) + 4 <= start && start <= end && end == it.p.Read && end - start >= thrift.tmin(it.et) && it.i == old(it.i) + 1
 //@   ensures failed: old(it.Err) == nil && it.Err != nil ==> end == 0
 //@   modifies it.Err, it.p.Read, it.i
 
 //@ spec (*mapIterator).NextInt
-//@   props C01 C06
+//@   props C01 C06 C12
 //@   ensures mono: old(it.p.Read) <= it.p.Read && same(it.p.Buf, old(it.p.Buf)) && len(it.p.Buf) == old(len(it.p.Buf)) && it.et == old(it.et) && it.kt == old(it.kt) && it.size == old(it.size)
 //@   ensures span: old(it.Err) == nil && it.Err == nil ==> old(it.p.Read) + 1 <= start && start <= end && end == it.p.Read && end - start >= thrift.tmin(it.et) && it.i == old(it.i) + 1
 //@   modifies it.Err, it.p.Read, it.i
 
 //@ spec (*mapIterator).NextBin
-//@   props C01 C06
+//@   props C01 C06 C12
 //@   ensures progress: old(it.Err) == nil && it.Err == nil ==> it.p.Read > old(it.p.Read)
 //@   ensures mono: old(it.p.Read) <= it.p.Read && same(it.p.Buf, old(it.p.Buf)) && len(it.p.Buf) == old(len(it.p.Buf)) && it.et == old(it.et) && it.kt == old(it.kt) && it.size == old(it.size)
 //@   ensures span: old(it.Err) == nil && it.Err == nil ==> old(it.p.Read) <= start && start <= end && end == it.p.Read && end - start >= thrift.tmin(it.et) && it.i == old(it.i) + 1
